@@ -112,6 +112,26 @@ def DispFits {J σ : Type} (T : Tables) (L : Lib J) (d : Disp σ J) : Prop :=
     | .secop cls => cls ∈ T.errorClasses
     | _ => True
 
+/-- all that "the reply belongs to the request" needs of a dispatcher (`DispFits` without well-formedness): a positive reply
+carries the reply action of the request and its specifier, a raised SECoP error a class name of errors.py -/
+def DispAnswers {J σ : Type} (T : Tables) (d : Disp σ J) : Prop :=
+  ∀ st t,
+    match (d st t).1.res with
+    | .ok r => FitsOk T ⟨t.action, t.spec.getD []⟩ r.action (r.spec.getD [])
+    | .secop cls => cls ∈ T.errorClasses
+    | _ => True
+
+/-- action and specifier of the triple contain no newline -/
+def NoEolTriple {J : Type} (m : Triple J) : Prop := EOL ∉ m.action ∧ EOL ∉ m.spec.getD []
+
+/-- all that "no line is split" needs of a dispatcher (much less than `DispFits`): answering a request whose action
+and specifier contain no newline -- every request cut out of a request line is one -- it sends and returns only
+triples without newline in action and specifier.  Nothing is demanded of the characters otherwise: a specifier
+echoed from a hostile request (control characters, DEL, bytes ≥ 0x80) is covered. -/
+def DispNoEol {J σ : Type} (d : Disp σ J) : Prop :=
+  ∀ st t, NoEolTriple t →
+    (∀ m ∈ (d st t).1.async, NoEolTriple m) ∧ ∀ r, (d st t).1.res = .ok r → NoEolTriple r
+
 /-! ## Monitors on the bytes the real handler sent -/
 
 /-- an emitted byte string is exactly one line -/
@@ -194,6 +214,24 @@ def judgeGone (T : Tables) (stream : Bytes) (outs : List Bytes) : Verdict :=
     match scan T 0 reqs outs with
     | some (k, true) => if k < reqs.length then .misfit k else .count reqs.length (k + 1)
     | _ => .ok
+
+/-- judge what a peer has RECEIVED on a connection that may have been cut in the middle of a frame (a `sendall`
+raised after a part of its frame went out): the received bytes are cut at their newlines; every complete line
+is a help text line / an event or the fitting reply to the oldest unanswered request line (in order; the last
+request lines may be unanswered), is valid UTF-8 and has a JSON data part (`flags`, one pair per complete line,
+tested by the harness with Python's decoder and parser).  Only the unterminated rest after the last newline -- a
+line cut off when the connection ended -- is not looked at: a part of a frame followed by anything else sent
+later makes a complete line that is none of the above. -/
+def judgeReceived (T : Tables) (stream received : Bytes) (flags : List (Bool × Bool)) : Verdict :=
+  let reqs := (splitLines stream).lines
+  let outs := (splitLines received).lines.map (· ++ [EOL])
+  match scan T 0 reqs outs with
+  | some (k, true) => if k < reqs.length then .misfit k else .count reqs.length (k + 1)
+  | _ =>
+    match flags.findIdx? (fun f => !f.1), flags.findIdx? (fun f => !f.2) with
+    | some i, _ => .notUtf8 i
+    | none, some i => .notStrict i
+    | none, none => .ok
 
 /-- the module part of a specifier `module[:accessible]` -/
 def moduleOf (spec : Bytes) : Bytes := spec.takeWhile (· != 58)
